@@ -322,6 +322,8 @@ class Schedule(Strategy):
                                            + available_bat_power_for_current_TS)
             # iteration counter to determine whether each vehicle got a chance to charge
             i = 0
+            # power offered to a vehicle in its last unsuccessful try
+            last_offer = {}
             while len(vehicles) > 0:
                 i += 1
                 vehicle_id, energy_needed = vehicles.pop(0)
@@ -337,8 +339,8 @@ class Schedule(Strategy):
                 #  boundaries of charging process
                 power_alloc_for_vehicle = fraction * energy_needed * self.ts_per_hour + extra_power
                 # clamp allocated power to possible ranges
-                power = min(remaining_power_on_schedule, power_alloc_for_vehicle)
-                power = clamp_power(power, vehicle, cs)
+                offered_power = min(remaining_power_on_schedule, power_alloc_for_vehicle)
+                power = clamp_power(offered_power, vehicle, cs)
 
                 # load with power
                 avg_power, charged_soc = vehicle.battery.load(
@@ -362,9 +364,10 @@ class Schedule(Strategy):
                         remaining_power_on_schedule >= cs.min_power and
                         remaining_power_on_schedule >= vehicle.vehicle_type.min_charging_power and
                         vehicle.get_delta_soc() > self.EPS and
-                        # offered all remaining power and still nothing charged: retrying is futile
-                        not (avg_power < self.EPS and
-                             power_alloc_for_vehicle >= remaining_power_on_schedule)):
+                        # nothing charged and not offered more than in the last try: retrying is futile
+                        (avg_power >= self.EPS or
+                         offered_power > last_offer.get(vehicle_id, -1) + self.EPS)):
+                    last_offer[vehicle_id] = offered_power
                     vehicles.append((vehicle_id, energy_needed))
 
         # last timestep of core standing time
